@@ -246,6 +246,8 @@ class Ctx:
         self.t0 = time.time()
         self.scratch = Path(tempfile.mkdtemp(prefix='verif_%s_' % prop))
         self.findings = Findings()
+        for old in (VERIF / 'replay').glob('%s-%s-*.json' % (prop, tier)):
+            old.unlink()
         self.states = 0
         self.transitions = 0
         self.traces = 0
@@ -338,8 +340,12 @@ class Ctx:
               'violations': len(self.violations)}
         (VERIF / 'evidence').mkdir(exist_ok=True)
         (VERIF / 'evidence' / (self.prop + '.json')).write_text(json.dumps(ev, indent=1, default=str) + '\n')
-        for sig, what in self.known:
-            print('KNOWN-FINDING: property=%s %s -- %s' % (self.prop, sig, what))
+        seen = {k[0] for k in self.known}
+        for f in self.findings.data.get('findings', []):
+            if f['property'] == self.prop:
+                print('KNOWN-FINDING: property=%s %s -- %s [%s]' % (
+                    self.prop, f['signature'], f.get('what', ''),
+                    'reproduced in this run' if f['signature'] in seen else 'not exercised in this run'))
         rc = 0
         if self.violations:
             (VERIF / 'replay').mkdir(exist_ok=True)
